@@ -78,7 +78,8 @@ def determinism(n):
 
 def main(argv):
     if argv and argv[0] == "seeded":
-        return seeded(argv[1:])
+        seeds = tuple((os.environ.get("VERIF_SELFTEST_SEEDS") or "1").split(","))
+        return seeded(argv[1:], seeds=seeds)
     if argv and argv[0] == "determinism":
         return determinism(int(argv[1]) if len(argv) > 1 else 40)
     print("usage: vcheck selftest seeded [ids...] | determinism [n]")
